@@ -851,6 +851,7 @@ func (g *gen) readonlyHarness(m *Message, f *Field) {
 	g.p("func VH_C11_%s_%s() {", n, f.GoName)
 	g.reflPre(m, f, 1)
 	g.p("\t_ = exp")
+	g.p("\tvhWatch(x)")
 	g.p("\tvhEpoch()")
 	g.p("\tvhTrack(true)")
 	g.p("\tvhMapOrderAll(false)")
